@@ -36,7 +36,7 @@ NOLOCK = 2 ** 31 - 1
 
 def runs(tier, seed):
     if tier == "thorough":
-        return [Run("prune", cases=480, params={"actions": 160, "grow_min": 330, "grow_max": 900, "snap_every": 5}, timeout=7200)]
+        return [Run("prune", cases=240, params={"actions": 160, "grow_min": 330, "grow_max": 800, "snap_every": 5}, timeout=7200)]
     return [Run("prune", cases=32, params={"actions": 110, "grow_min": 330, "grow_max": 480, "snap_every": 4}, timeout=3600)]
 
 
